@@ -33,7 +33,7 @@ Body(p, b) == IF b = 0 THEN <<>> ELSE p.bodies[b]
 Titles(p) == {p.nodes[i].title : i \in DOMAIN p.nodes}
 NodeIdx(p, t) == CHOOSE i \in DOMAIN p.nodes :
                    p.nodes[i].title = t /\ \A j \in 1..(i - 1) : p.nodes[j].title # t
-Probes(p) == {f \in DOMAIN p.funcs : p.funcs[f] \in {"id", "boom", "noret"}}
+Probes(p) == {f \in DOMAIN p.funcs : p.funcs[f] \in {"id", "boom", "noret", "bump"}}
 
 NoCmd == [st |-> "none", err |-> FALSE, arg |-> Unset]
 NoOut == [k |-> "none"]
@@ -70,7 +70,11 @@ Env(p, s) == [store |-> s.store, visits |-> s.visits, nodes |-> Titles(p),
               funcs |-> p.funcs, probes |-> Probes(p)]
 
 Yield(s, out) == [s EXCEPT !.mode = "idle", !.out = out]
-Log(s, log) == [s EXCEPT !.fcalls = @ \o log]
+\* the calls of a (partial) evaluation are logged, and what host functions wrote through the storer
+\* while it ran has happened: to the store and to the storer's write log
+Log(s, log) == IF log = <<>> THEN s
+               ELSE [s EXCEPT !.fcalls = @ \o log, !.store = EffStore(@, log, 1),
+                              !.writes = @ \o EffWriteLog(s.store, log, 1)]
 Fault(s, log) == Yield(Log(s, log), [k |-> "error"])
 OutOfScope(s) == Yield(s, [k |-> "oos"])
 EndOut == [k |-> "end"]
@@ -82,7 +86,7 @@ RenderParts(parts, i, env, acc) ==
   ELSE LET pt == parts[i] IN
        IF "lit" \in DOMAIN pt
        THEN RenderParts(parts, i + 1, env, [text |-> acc.text \o pt.lit, log |-> acc.log])
-       ELSE LET r == EvalValue(pt.e, env) IN
+       ELSE LET r == EvalValue(pt.e, Eff(env, acc.log)) IN
             IF r.st # "ok" THEN [st |-> r.st, text |-> acc.text, log |-> acc.log \o r.log]
             ELSE RenderParts(parts, i + 1, env,
                              [text |-> acc.text \o Display(r.v), log |-> acc.log \o r.log])
@@ -94,13 +98,13 @@ RECURSIVE RenderOpts(_, _, _, _)
 RenderOpts(opts, i, env, acc) ==
   IF i > Len(opts) THEN [st |-> "ok", opts |-> acc.opts, log |-> acc.log]
   ELSE LET o == opts[i]
-           t == Render(o.text, env) IN
+           t == Render(o.text, Eff(env, acc.log)) IN
        IF t.st # "ok" THEN [st |-> t.st, opts |-> acc.opts, log |-> acc.log \o t.log]
        ELSE IF o.cond.k = "none"
             THEN RenderOpts(opts, i + 1, env,
                    [opts |-> Append(acc.opts, [text |-> t.text, dis |-> FALSE, tags |-> o.tags]),
                     log |-> acc.log \o t.log])
-            ELSE LET c == EvalValue(o.cond, env) IN
+            ELSE LET c == EvalValue(o.cond, Eff(env, acc.log \o t.log)) IN
                  IF c.st # "ok" THEN [st |-> c.st, opts |-> acc.opts, log |-> acc.log \o t.log \o c.log]
                  ELSE IF ~IsBool(c.v) THEN [st |-> "err", opts |-> acc.opts, log |-> acc.log \o t.log \o c.log]
                  ELSE RenderOpts(opts, i + 1, env,
@@ -128,11 +132,11 @@ ExecSet(p, s, stmt) ==
   IF r.st = "oos" THEN OutOfScope(s)
   ELSE IF r.st = "err" THEN Fault(s, r.log)
   ELSE IF stmt.var \notin DOMAIN s.store THEN OutOfScope(s)
-  ELSE LET a == Assign(stmt.op, s.store[stmt.var], r.v) IN
+  ELSE LET a == Assign(stmt.op, EffStore(s.store, r.log, 1)[stmt.var], r.v) IN   \* (the previous value is read after e)
        IF a.st = "oos" THEN OutOfScope(s)
        ELSE IF a.st = "err"
             THEN (IF Bug.failedSetWrites
-                  THEN Fault([s EXCEPT !.store[stmt.var] = r.v], r.log) ELSE Fault(s, r.log))
+                  THEN [Fault(s, r.log) EXCEPT !.store[stmt.var] = r.v] ELSE Fault(s, r.log))
        ELSE [Log(s, r.log) EXCEPT !.store[stmt.var] = a.v,
                                   !.writes = Append(@, [var |-> stmt.var, val |-> a.v])]
 
@@ -141,7 +145,7 @@ RECURSIVE FirstTrue(_, _, _, _)
 \* result [st, body (0 = none), log]
 FirstTrue(clauses, i, env, log) ==
   IF i > Len(clauses) THEN [st |-> "ok", idx |-> 0, log |-> log]
-  ELSE LET c == EvalValue(clauses[i].cond, env) IN
+  ELSE LET c == EvalValue(clauses[i].cond, Eff(env, log)) IN
        IF c.st # "ok" THEN [st |-> c.st, idx |-> 0, log |-> log \o c.log]
        ELSE IF ~IsBool(c.v) THEN [st |-> "err", idx |-> 0, log |-> log \o c.log]
        ELSE IF c.v.b THEN [st |-> "ok", idx |-> i, log |-> log \o c.log]
@@ -172,9 +176,9 @@ ExecJump(p, s, stmt) ==
        IN [s1 EXCEPT
              \* a visit is completed when the node is LEFT through a jump (C11)
              !.visits = newVisits,
-             !.eproj = EntryProj(p, tgt.title, s.store, newVisits),
+             !.eproj = EntryProj(p, tgt.title, s1.store, newVisits),
              !.jout = [@ EXCEPT ![cur.title] = @ + 1],
-             !.entry = s.store,
+             !.entry = s1.store,
              !.stack = IF Bug.jumpKeepsStack THEN Append(@, [b |-> tgt.body, pc |-> 1])
                        ELSE <<[b |-> tgt.body, pc |-> 1]>>,
              !.node = tgt.title]
@@ -183,7 +187,7 @@ ExecJump(p, s, stmt) ==
 RECURSIVE EvalElems(_, _, _, _)
 EvalElems(elems, i, env, acc) ==
   IF i > Len(elems) THEN [st |-> "ok", vals |-> acc.vals, log |-> acc.log]
-  ELSE LET r == EvalValue(elems[i], env) IN
+  ELSE LET r == EvalValue(elems[i], Eff(env, acc.log)) IN
        IF r.st # "ok" THEN [st |-> r.st, vals |-> acc.vals, log |-> acc.log \o r.log]
        ELSE EvalElems(elems, i + 1, env, [vals |-> Append(acc.vals, r.v), log |-> acc.log \o r.log])
 
